@@ -20,17 +20,31 @@ def dispatch (req : Sx) : Sx :=
   | some r => r
   | none => .list [.atom "bad-request"]
 
-partial def loop (h : IO.FS.Stream) (out : IO.FS.Stream) : IO Unit := do
+partial def loop (h : IO.FS.Stream) (out : IO.FS.Stream) (lib : Option LibSetup) : IO Unit := do
   let line ← h.getLine
   if line.isEmpty then return ()
-  let resp := match Sx.parse line with
-    | some req => dispatch req
-    | none => .list [.atom "parse-error"]
-  out.putStrLn (toString resp)
-  loop h out
+  match Sx.parse line with
+  | none =>
+    out.putStrLn (toString (Sx.list [.atom "parse-error"]))
+    loop h out lib
+  | some req =>
+    -- the two stateful requests: `libsetup` builds the real base environment once, `libsession` runs programs on it
+    match libSetup req with
+    | some (.ok c) =>
+      out.putStrLn (toString (Sx.list [.atom "libsetup", .atom "ok"]))
+      loop h out (some c)
+    | some (.error e) =>
+      out.putStrLn (toString e)
+      loop h out none
+    | none =>
+      let resp := match lib.bind (fun c => libSession c req) with
+        | some r => r
+        | none => dispatch req
+      out.putStrLn (toString resp)
+      loop h out lib
 
 def main : IO Unit := do
   let stdin ← IO.getStdin
   let stdout ← IO.getStdout
-  loop stdin stdout
+  loop stdin stdout none
   stdout.flush
